@@ -43,3 +43,55 @@ Proof. exact (proj1 zigzag_refuted_v0). Qed.
 Theorem C11_varint_roundtrip : forall v rest, v < two64 -> read_varint (write_varint v ++ rest) = Some (v, rest).
 Proof. exact varint_roundtrip. Qed.
 Print Assumptions C11_varint_roundtrip.
+
+(* ---- the join itself: Runner::run over filter_map_properties (Model/MVTUpdate.v) ---- *)
+From VT Require Import Model.MVTUpdate Proofs.MVTUpdateProofs.
+
+(* one feature's properties: untouched without the id field; kept or dropped (remove_non_matching)
+   without a data row; otherwise the row's properties (replace) or the old ones overwritten by the
+   row's (merge) *)
+Theorem C11_join_properties : forall find idf replace remove p,
+  match bt_get idf p with
+  | None => upd_props find idf replace remove p = Some p
+  | Some id =>
+      match find id with
+      | None => upd_props find idf replace remove p = if remove then None else Some p
+      | Some np => exists q, upd_props find idf replace remove p = Some q /\
+                   forall k, bt_get k q = if replace then bt_get k np
+                                         else match props_get np k with Some v => Some v | None => bt_get k p end
+      end
+  end.
+Proof. exact upd_props_spec. Qed.
+Print Assumptions C11_join_properties.
+
+(* the named layer keeps name, extent, version; its features are the retained ones in their
+   original order, each with its id, geometry type, geometry bytes, and the joined properties *)
+Theorem C11_named_layer : forall find idf replace remove l l',
+  update_layer find idf replace remove l = Some l' ->
+  lname l' = lname l /\ lextent l' = lextent l /\ lversion l' = lversion l /\
+  lcontent l' = map want (flat_map (keep find idf replace remove (lkeys l) (lvals l)) (lfeatures l)).
+Proof. exact update_layer_spec. Qed.
+Print Assumptions C11_named_layer.
+
+(* every other layer is returned as it is; the number and order of layers stay *)
+Theorem C11_other_layers : forall find idf replace remove name ls ls',
+  update_tile find idf replace remove name ls = Some ls' ->
+  Forall2 (fun l l' => if bytes_eqb (lname l) name then update_layer find idf replace remove l = Some l' else l' = l) ls ls'.
+Proof. exact update_tile_spec. Qed.
+Print Assumptions C11_other_layers.
+
+(* the operation fails only for a feature of the named layer whose tag ids do not decode *)
+Theorem C11_failure_only_on_bad_tags : forall find idf replace remove name ls,
+  update_tile find idf replace remove name ls = None ->
+  exists l f, In l ls /\ lname l = name /\ In f (lfeatures l) /\ decode_tags (lkeys l) (lvals l) (ftags f) = None.
+Proof. exact update_tile_fails_only_on_bad_tags. Qed.
+Print Assumptions C11_failure_only_on_bad_tags.
+
+Example C11_join_example :
+  let find := fun v => match v with VUInt 7 => Some [([120], VStr [121])] | _ => None end in
+  let l := mkL [119] 4096 2 [[116]; [97]] [VUInt 7; VUInt 8; VBool true]
+               [mkF (Some 1) [0; 0; 1; 2] 1 [9]; mkF (Some 2) [0; 1] 2 [8]; mkF None [1; 2] 3 []] in
+  option_map lcontent (update_layer find [116] false true l) =
+  Some [(Some 1, 1, [9], Some [([97], VBool true); ([116], VUInt 7); ([120], VStr [121])]);
+        (None, 3, [], Some [([97], VBool true)])].
+Proof. reflexivity. Qed.
